@@ -235,9 +235,10 @@ theorem inv_finish (c : Cfg) (s : St) (h : Inv c s) : Inv c (finish c s) := by
 
 /-- the state after the optional kick and the buffer extension of a `.chunk` read -/
 def afterRead (c : Cfg) (s : St) (raw : Bytes) (t : Nat) : St :=
-  let s0 : St := { s with nread := s.nread + 1 }
-  let s1 := if c.kicks && (chanRead raw).isEmpty && decide (t > c.ivl * s0.attempts) then kick s0 else s0
-  { s1 with buf := s1.buf ++ lower (chanRead raw) }
+  let b := (c.clean s.held raw).1
+  let s0 : St := { s with nread := s.nread + 1, held := (c.clean s.held raw).2 }
+  let s1 := if c.kicks && b.isEmpty && decide (t > c.ivl * s0.attempts) then kick s0 else s0
+  { s1 with buf := s1.buf ++ lower b }
 
 theorem step_chunk (c : Cfg) (s : St) (raw : Bytes) (t : Nat) (hr : s.status = .running) :
     step c s (.chunk raw t) =
@@ -328,41 +329,91 @@ theorem consumed_finish (c : Cfg) (s : St) : consumed (finish c s) = consumed s 
 
 theorem consumed_kick (s : St) : consumed (kick s) = consumed s := by simp [consumed, kick]
 
+/-- what `Channel.read()` hands to the loop for this read, given what it held back before -/
+def cleanedOf (c : Cfg) (held : Bytes) : Read → Bytes
+  | .chunk raw _ => (c.clean held raw).1
+  | .connErr => []
+
+def heldAfter (c : Cfg) (held : Bytes) : Read → Bytes
+  | .chunk raw _ => (c.clean held raw).2
+  | .connErr => held
+
+/-- the cleaned input of a tape (the cleaner's held-back state threaded through) -/
+def cleanedStream (c : Cfg) : Bytes → List Read → Bytes
+  | _, [] => []
+  | h, r :: rs => cleanedOf c h r ++ cleanedStream c (heldAfter c h r) rs
+
+theorem lower_append' (a b : Bytes) : lower (a ++ b) = lower a ++ lower b := by simp [lower]
+
+theorem cleanedStream_append (c : Cfg) (a b : List Read) : ∀ h,
+    ∃ h', cleanedStream c h (a ++ b) = cleanedStream c h a ++ cleanedStream c h' b := by
+  induction a with
+  | nil => intro h; exact ⟨h, by simp [cleanedStream]⟩
+  | cons r a ih =>
+    intro h
+    obtain ⟨h', e⟩ := ih (heldAfter c h r)
+    exact ⟨h', by simp [cleanedStream, e]⟩
+
+theorem afterRead_held (c : Cfg) (s : St) (raw : Bytes) (t : Nat) :
+    (afterRead c s raw t).held = (c.clean s.held raw).2 := by
+  unfold afterRead; simp only; split <;> simp [kick]
+
+theorem answer_held (c : Cfg) (k : Kind) (s : St) : (answer c k s).held = s.held := by
+  rcases answer_cases c k s with ⟨he, _⟩ | ⟨_, _, _, he⟩ | ⟨_, _, _, he⟩ <;> rw [he]
+
+theorem finish_held (c : Cfg) (s : St) : (finish c s).held = s.held := by
+  unfold finish; split <;> rfl
+
+theorem step_held (c : Cfg) (he : ErrOK c) (s : St) (r : Read) (hr : s.status = .running) :
+    (step c s r).held = heldAfter c s.held r := by
+  cases r with
+  | connErr =>
+    rw [step_connErr c he s hr]
+    split <;> simp [kick, heldAfter]
+  | chunk raw t =>
+    rw [step_chunk c s raw t hr]
+    split
+    · simp [afterRead_held, heldAfter]
+    · rw [finish_held, answer_held, answer_held, afterRead_held]; rfl
+
 theorem consumed_step (c : Cfg) (he : ErrOK c) (s : St) (r : Read) (hr : s.status = .running) :
-    consumed (step c s r) = consumed s ++ lc (rawOf r) := by
+    consumed (step c s r) = consumed s ++ lower (cleanedOf c s.held r) := by
   cases r with
   | connErr =>
     rw [step_connErr c he s hr]
     split
-    · rw [consumed_kick]; simp [consumed, rawOf]
-    · simp [consumed, rawOf]
+    · rw [consumed_kick]; simp [consumed, cleanedOf, lower]
+    · simp [consumed, cleanedOf, lower]
   | chunk raw t =>
     rw [step_chunk c s raw t hr]
-    have h1 : consumed (afterRead c s raw t) = consumed s ++ lc raw := by
+    have h1 : consumed (afterRead c s raw t) = consumed s ++ lower (c.clean s.held raw).1 := by
       unfold afterRead; simp only
       split
-      · simp [consumed, kick, lc]
-      · simp [consumed, lc]
+      · simp [consumed, kick]
+      · simp [consumed]
     split
-    · simpa [consumed, rawOf] using h1
+    · simpa [consumed, cleanedOf] using h1
     · rw [consumed_finish, consumed_answer, consumed_answer, h1]; rfl
 
-theorem consumed_fold (c : Cfg) (he : ErrOK c) (tape : List Read) : ∀ (s : St) (pre0 : List Read),
-    consumed s = lc (streamOf pre0) →
-    ∃ pre post, tape = pre ++ post ∧ consumed (tape.foldl (step c) s) = lc (streamOf (pre0 ++ pre)) := by
+/-- the matched buffers and the current buffer are the lower-cased CLEANED input of a prefix of the tape -/
+theorem consumed_fold (c : Cfg) (he : ErrOK c) (tape : List Read) : ∀ (s : St) (acc : Bytes),
+    consumed s = lower acc →
+    ∃ pre post, tape = pre ++ post ∧
+      consumed (tape.foldl (step c) s) = lower (acc ++ cleanedStream c s.held pre) := by
   induction tape with
-  | nil => intro s pre0 h; exact ⟨[], [], rfl, by simpa using h⟩
+  | nil => intro s acc h; exact ⟨[], [], rfl, by simpa [cleanedStream] using h⟩
   | cons r t ih =>
-    intro s pre0 h
+    intro s acc h
     by_cases hr : s.status = .running
-    · have h' : consumed (step c s r) = lc (streamOf (pre0 ++ [r])) := by
-        rw [consumed_step c he s r hr, h, streamOf_append, lc_append]
-        cases r <;> simp [streamOf, rawOf]
-      obtain ⟨pre, post, ht, hc⟩ := ih (step c s r) (pre0 ++ [r]) h'
-      exact ⟨r :: pre, post, by simp [ht], by simpa using hc⟩
+    · have h' : consumed (step c s r) = lower (acc ++ cleanedOf c s.held r) := by
+        rw [consumed_step c he s r hr, h, lower_append']
+      obtain ⟨pre, post, ht, hc⟩ := ih (step c s r) (acc ++ cleanedOf c s.held r) h'
+      refine ⟨r :: pre, post, by simp [ht], ?_⟩
+      rw [List.foldl_cons, hc, step_held c he s r hr]
+      simp [cleanedStream, List.append_assoc]
     · refine ⟨[], r :: t, rfl, ?_⟩
       rw [foldl_stopped c (r :: t) s hr]
-      simpa using h
+      simpa [cleanedStream] using h
 
 /-! ### closed system: the loop against a causal device -/
 
@@ -416,8 +467,10 @@ def view (s : St) : List (Kind × Bool) := s.log.map fun e => (e.kind, e.ok)
 /-- **The static condition on the dialogue text.**  `p` is the (cleaned, lower-cased) text the device
     prints in the current phase, `rest` the segments released by the following credential lines,
     `exp` the credentials the device is going to ask for.  For every admissible split `p = x ++ y`
-    (`x` = what the loop may have in its buffer after some read): no foreign credential pattern, no
-    shell prompt and no fatal message is seen in `x`; and where the expected pattern matches, the rest
+    (`x` = what the loop may have in its buffer after some read): no foreign credential pattern and no
+    fatal message is seen in `x`, no shell prompt either unless the expected pattern matches on `x`
+    (then the buffer is cleared before the prompt test, so a prompt pattern such as GenericDriver's, for
+    which `username:` is itself a prompt line, is fine); and where the expected pattern matches, the rest
     `y` followed by the next segment is again safe.  When everything has arrived the expected pattern
     (in the last phase: the shell prompt) does match.  With `adm = fun _ _ => true` this speaks about
     every PREFIX of the text; with `adm = wholeLines` only about prefixes that end at a line end. -/
@@ -429,7 +482,8 @@ def Safe (c : Cfg) (adm : Bytes → Bytes → Bool) : (Kind → Nat) → List Ki
   | cnt, k :: exp, p, rest =>
       (k = c.k1 ∨ k = c.k2) ∧ c.P k p = true ∧
       ∀ x y, p = x ++ y → adm x y = true →
-        c.prompt x = false ∧ c.P (otherKind c k) x = false ∧ (c.handler && c.fatal x) = false ∧
+        (c.P k x = false → c.prompt x = false) ∧ c.P (otherKind c k) x = false ∧
+        (c.handler && c.fatal x) = false ∧
         (c.P k x = true → c.limit k < cnt k + 1 ∨
           match rest with
           | [] => False
@@ -459,9 +513,29 @@ theorem outcome_ne_running (c : Cfg) (exp : List Kind) : ∀ cnt, outcome c cnt 
   | nil => intro cnt; simp [outcome]
   | cons k e ih => intro cnt; unfold outcome; split <;> simp [ih]
 
-theorem afterRead_zero (c : Cfg) (s : St) (raw : Bytes) :
-    afterRead c s raw 0 = { s with nread := s.nread + 1, buf := s.buf ++ lc raw } := by
-  simp [afterRead, lc]
+/-- no carriage return in the text -/
+def NoCR (b : Bytes) : Prop := ∀ x ∈ b, x ≠ 13
+
+theorem chanRead_nocr (b : Bytes) (h : NoCR b) : chanRead b = b := by
+  unfold chanRead
+  rw [List.filter_eq_self]
+  intro x hx
+  simpa using h x hx
+
+/-- the kick cannot fire during this read: the loop does not kick at all (ssh), or no time has passed,
+    or the read returns at least one byte and none of them is a carriage return (so it does not clean
+    to nothing) -/
+def NoKick (c : Cfg) (raw : Bytes) (t : Nat) : Prop := c.kicks = false ∨ t = 0 ∨ (raw ≠ [] ∧ NoCR raw)
+
+theorem afterRead_nokick (c : Cfg) (hcl : c.clean = crClean) (s : St) (raw : Bytes) (t : Nat)
+    (h : NoKick c raw t) :
+    afterRead c s raw t = { s with nread := s.nread + 1, held := [], buf := s.buf ++ lc raw } := by
+  rcases h with h | h | ⟨h1, h2⟩
+  · simp [afterRead, lc, hcl, crClean, h]
+  · simp [afterRead, lc, hcl, crClean, h]
+  · have : (chanRead raw).isEmpty = false := by
+      rw [chanRead_nocr raw h2]; cases raw <;> simp_all
+    simp [afterRead, lc, hcl, crClean, this]
 
 /-- hypotheses on the configuration shared by the closed-system theorems -/
 structure CfgOK (c : Cfg) : Prop where
@@ -470,6 +544,7 @@ structure CfgOK (c : Cfg) : Prop where
   k2r : c.k2 ≠ .ret
   P0 : ∀ k, c.P k [] = false          -- no credential pattern matches the empty buffer
   pr0 : c.prompt [] = false           -- nor does the prompt pattern
+  cl : c.clean = crClean              -- the dialogue has no escape sequences: Channel.read only drops CR
 
 /-- neither credential matches: the iteration only tests the prompt -/
 theorem answers_skip (c : Cfg) (s : St) (h1 : c.P c.k1 s.buf = false) (h2 : c.P c.k2 s.buf = false) :
@@ -518,20 +593,20 @@ theorem answers_one (c : Cfg) (ok : CfgOK c) (k : Kind) (hk : k = c.k1 ∨ k = c
 theorem feedDev_nil (d : Dev) : feedDev d [] = ([], d) := rfl
 
 /-- a read at time 0 on which no credential pattern matches -/
-theorem step_quiet (c : Cfg) (s : St) (chunk : Bytes) (hr : s.status = .running)
+theorem step_quiet (c : Cfg) (hcl : c.clean = crClean) (t : Nat) (s : St) (chunk : Bytes) (htk : NoKick c chunk t) (hr : s.status = .running)
     (hf : (c.handler && c.fatal (s.buf ++ lc chunk)) = false)
     (h1 : c.P c.k1 (s.buf ++ lc chunk) = false) (h2 : c.P c.k2 (s.buf ++ lc chunk) = false) :
-    step c s (.chunk chunk 0) = finish c { s with nread := s.nread + 1, buf := s.buf ++ lc chunk } := by
-  rw [step_chunk c s chunk 0 hr, afterRead_zero]
+    step c s (.chunk chunk t) = finish c { s with nread := s.nread + 1, held := [], buf := s.buf ++ lc chunk } := by
+  rw [step_chunk c s chunk t hr, afterRead_nokick c hcl s chunk t htk]
   simp only [hf, Bool.false_eq_true, if_false]
   rw [answers_skip c _ h1 h2]
 
 /-- a read at time 0 on which exactly the expected credential pattern matches -/
-theorem step_one (c : Cfg) (ok : CfgOK c) (k : Kind) (hk : k = c.k1 ∨ k = c.k2) (s : St) (chunk : Bytes)
+theorem step_one (c : Cfg) (ok : CfgOK c) (t : Nat) (k : Kind) (hk : k = c.k1 ∨ k = c.k2) (s : St) (chunk : Bytes) (htk : NoKick c chunk t)
     (hr : s.status = .running) (hf : (c.handler && c.fatal (s.buf ++ lc chunk)) = false)
     (hp : c.P k (s.buf ++ lc chunk) = true) (ho : c.P (otherKind c k) (s.buf ++ lc chunk) = false) :
-    step c s (.chunk chunk 0) = answer c k { s with nread := s.nread + 1, buf := s.buf ++ lc chunk } := by
-  rw [step_chunk c s chunk 0 hr, afterRead_zero]
+    step c s (.chunk chunk t) = answer c k { s with nread := s.nread + 1, held := [], buf := s.buf ++ lc chunk } := by
+  rw [step_chunk c s chunk t hr, afterRead_nokick c ok.cl s chunk t htk]
   simp only [hf, Bool.false_eq_true, if_false]
   exact answers_one c ok k hk _ hr hp ho
 
@@ -540,15 +615,24 @@ theorem kind_ne_ret (c : Cfg) (ok : CfgOK c) (k : Kind) (hk : k = c.k1 ∨ k = c
   · simpa using ok.k1r
   · simpa using ok.k2r
 
-theorem phase_step (c : Cfg) (ok : CfgOK c) (L : List (Kind × Bool)) (O : Status) (y : Sys) (n : Nat)
-    (h : Phase c L O y) : Phase c L O (sysStep c y (n, 0)) := by
+theorem phase_step (c : Cfg) (ok : CfgOK c) (L : List (Kind × Bool)) (O : Status) (y : Sys) (n t : Nat)
+    (htk0 : c.kicks = false ∨ t = 0 ∨ NoCR y.avail) (h : Phase c L O y) : Phase c L O (sysStep c y (n, t)) := by
   unfold sysStep
   rcases h with ⟨exp, hr, hs, ht, hl, ho⟩ | ⟨hst, hl, hO⟩
   · by_cases hav : y.avail.isEmpty = true
     · simp [hav]; exact .live exp hr hs ht hl ho
     · simp only [hr, bne_self_eq_false, hav, Bool.or_self, Bool.false_eq_true, if_false]
       -- the chunk and what stays behind
-      generalize max 1 n = m
+      have htk : NoKick c (y.avail.take (max 1 n)) t := by
+        rcases htk0 with h | h | h
+        · exact Or.inl h
+        · exact Or.inr (Or.inl h)
+        · refine Or.inr (Or.inr ⟨?_, fun x hx => h x (List.mem_of_mem_take hx)⟩)
+          intro hnil
+          rcases List.take_eq_nil_iff.mp hnil with h0 | h0
+          · omega
+          · simp [h0] at hav
+      generalize max 1 n = m at htk
       have hsplit : y.avail = y.avail.take m ++ y.avail.drop m := (List.take_append_drop m y.avail).symm
       generalize y.avail.take m = chunk at *
       generalize y.avail.drop m = remain at *
@@ -558,18 +642,18 @@ theorem phase_step (c : Cfg) (ok : CfgOK c) (L : List (Kind × Bool)) (O : Statu
       | nil =>
         obtain ⟨hprompt, hq⟩ := hs
         obtain ⟨q1, q2, q3⟩ := hq _ _ hp rfl
-        rw [step_quiet c y.s chunk hr q3 q1 q2]
+        rw [step_quiet c ok.cl t y.s chunk htk hr q3 q1 q2]
         by_cases hpx : c.prompt (y.s.buf ++ lc chunk) = true
-        · have hfin : finish c { y.s with nread := y.s.nread + 1, buf := y.s.buf ++ lc chunk }
-              = { y.s with nread := y.s.nread + 1, buf := y.s.buf ++ lc chunk, status := .done } := by
+        · have hfin : finish c { y.s with nread := y.s.nread + 1, held := [], buf := y.s.buf ++ lc chunk }
+              = { y.s with nread := y.s.nread + 1, held := [], buf := y.s.buf ++ lc chunk, status := .done } := by
             simp [finish, hr, hpx]
           rw [hfin]
           simp only [List.drop_length, feedDev_nil, List.append_nil]
           refine .over ?_ ?_ (by rw [← ho]; simp [outcome])
           · rw [← ho]; rfl
           · simpa [view, expLog] using hl
-        · have hfin : finish c { y.s with nread := y.s.nread + 1, buf := y.s.buf ++ lc chunk }
-              = { y.s with nread := y.s.nread + 1, buf := y.s.buf ++ lc chunk } := by
+        · have hfin : finish c { y.s with nread := y.s.nread + 1, held := [], buf := y.s.buf ++ lc chunk }
+              = { y.s with nread := y.s.nread + 1, held := [], buf := y.s.buf ++ lc chunk } := by
             simp [finish, hpx]
           rw [hfin]
           simp only [List.drop_length, feedDev_nil, List.append_nil]
@@ -582,8 +666,8 @@ theorem phase_step (c : Cfg) (ok : CfgOK c) (L : List (Kind × Bool)) (O : Statu
         obtain ⟨q1, q2, q3, q4⟩ := hq _ _ hp rfl
         have hkr := kind_ne_ret c ok k hk
         by_cases hpx : c.P k (y.s.buf ++ lc chunk) = true
-        · rw [step_one c ok k hk y.s chunk hr q3 hpx q2]
-          rcases answer_cases c k { y.s with nread := y.s.nread + 1, buf := y.s.buf ++ lc chunk }
+        · rw [step_one c ok t k hk y.s chunk htk hr q3 hpx q2]
+          rcases answer_cases c k { y.s with nread := y.s.nread + 1, held := [], buf := y.s.buf ++ lc chunk }
             with ⟨_, hn⟩ | ⟨_, _, hc, he⟩ | ⟨_, _, hc, he⟩
           · rcases hn with hn | hn
             · exact absurd hr hn
@@ -630,10 +714,10 @@ theorem phase_step (c : Cfg) (ok : CfgOK c) (L : List (Kind × Bool)) (O : Statu
             · refine ⟨?_, hpf⟩
               have : otherKind c c.k2 = c.k1 := by simp [otherKind, Ne.symm ok.k12]
               rw [this] at q2; exact q2
-          rw [step_quiet c y.s chunk hr q3 h12.1 h12.2]
-          have hfin : finish c { y.s with nread := y.s.nread + 1, buf := y.s.buf ++ lc chunk }
-              = { y.s with nread := y.s.nread + 1, buf := y.s.buf ++ lc chunk } := by
-            simp [finish, q1]
+          rw [step_quiet c ok.cl t y.s chunk htk hr q3 h12.1 h12.2]
+          have hfin : finish c { y.s with nread := y.s.nread + 1, held := [], buf := y.s.buf ++ lc chunk }
+              = { y.s with nread := y.s.nread + 1, held := [], buf := y.s.buf ++ lc chunk } := by
+            simp [finish, q1 hpf]
           rw [hfin]
           simp only [List.drop_length, feedDev_nil, List.append_nil]
           refine .live (k :: exp') hr ?_ ?_ hl ho
@@ -644,18 +728,65 @@ theorem phase_step (c : Cfg) (ok : CfgOK c) (L : List (Kind × Bool)) (O : Statu
     simp [this]
     exact .over hst hl hO
 
-theorem phase_run (c : Cfg) (ok : CfgOK c) (L : List (Kind × Bool)) (O : Status) (sched : List (Nat × Nat))
-    (ht : ∀ p ∈ sched, p.2 = 0) : ∀ y, Phase c L O y → Phase c L O (sched.foldl (sysStep c) y) := by
+def NoCRDev (d : Dev) : Prop := NoCR d.onRet ∧ ∀ g ∈ d.segs, NoCR g
+def NoCRSys (y : Sys) : Prop := NoCR y.avail ∧ NoCRDev y.d
+
+theorem nocr_append (a b : Bytes) (ha : NoCR a) (hb : NoCR b) : NoCR (a ++ b) := by
+  intro x hx
+  rcases List.mem_append.mp hx with h | h
+  · exact ha x h
+  · exact hb x h
+
+theorem feedDev_nocr (es : List Entry) : ∀ d, NoCRDev d → NoCR (feedDev d es).1 ∧ NoCRDev (feedDev d es).2 := by
+  induction es with
+  | nil => intro d h; exact ⟨by intro x hx; simp [feedDev] at hx, h⟩
+  | cons e es ih =>
+    intro d h
+    unfold feedDev
+    split
+    · obtain ⟨h1, h2⟩ := ih d h
+      exact ⟨nocr_append _ _ h.1 h1, h2⟩
+    · split
+      · have hd : NoCRDev { d with segs := d.segs.tail } :=
+          ⟨h.1, fun g hg => h.2 g (List.mem_of_mem_tail hg)⟩
+        obtain ⟨h1, h2⟩ := ih _ hd
+        refine ⟨nocr_append _ _ ?_ h1, h2⟩
+        cases hs : d.segs with
+        | nil => intro x hx; simp at hx
+        | cons g r => simpa using h.2 g (by simp [hs])
+      · exact ih d h
+
+theorem sysStep_nocr (c : Cfg) (y : Sys) (nt : Nat × Nat) (h : NoCRSys y) : NoCRSys (sysStep c y nt) := by
+  unfold sysStep
+  split
+  · exact h
+  · obtain ⟨h1, h2⟩ := feedDev_nocr ((step c y.s (.chunk (y.avail.take (max 1 nt.1)) nt.2)).log.drop y.s.log.length) y.d h.2
+    exact ⟨nocr_append _ _ (fun x hx => h.1 x (List.mem_of_mem_drop hx)) h1, h2⟩
+
+/-- the kick cannot fire during this schedule: the loop has no kick (ssh), or no time passes, or the
+    device never prints a carriage return (then no read cleans to nothing — ANY times) -/
+def TimeOK (c : Cfg) (g0 : Bytes) (d : Dev) (sched : List (Nat × Nat)) : Prop :=
+  c.kicks = false ∨ (∀ p ∈ sched, p.2 = 0) ∨ (NoCR g0 ∧ NoCRDev d)
+
+theorem phase_run (c : Cfg) (ok : CfgOK c) (L : List (Kind × Bool)) (O : Status) (sched : List (Nat × Nat)) :
+    ∀ y, (c.kicks = false ∨ (∀ p ∈ sched, p.2 = 0) ∨ NoCRSys y) → Phase c L O y →
+      Phase c L O (sched.foldl (sysStep c) y) := by
   induction sched with
-  | nil => intro y h; exact h
+  | nil => intro y _ h; exact h
   | cons p t ih =>
-    intro y h
-    have hp : p = (p.1, 0) := by
-      have := ht p (by simp)
-      cases p; simp_all
+    intro y ht h
+    have hp : c.kicks = false ∨ p.2 = 0 ∨ NoCR y.avail := by
+      rcases ht with ht | ht | ht
+      · exact Or.inl ht
+      · exact Or.inr (Or.inl (ht p (by simp)))
+      · exact Or.inr (Or.inr ht.1)
+    have ht' : c.kicks = false ∨ (∀ q ∈ t, q.2 = 0) ∨ NoCRSys (sysStep c y p) := by
+      rcases ht with ht | ht | ht
+      · exact Or.inl ht
+      · exact Or.inr (Or.inl (fun q hq => ht q (by simp [hq])))
+      · exact Or.inr (Or.inr (sysStep_nocr c y p ht))
     simp only [List.foldl_cons]
-    rw [hp]
-    exact ih (fun q hq => ht q (by simp [hq])) _ (phase_step c ok L O y p.1 h)
+    exact ih _ ht' (phase_step c ok L O y p.1 p.2 hp h)
 
 theorem phase_init (c : Cfg) (ok : CfgOK c) (exp : List Kind) (g0 : Bytes) (d : Dev)
     (hs : Safe c allSplits (fun _ => 0) exp (lc g0) d.segs) :
@@ -706,7 +837,7 @@ def safeB (c : Cfg) (adm : Bytes → Bytes → Bool) : (Kind → Nat) → List K
   | cnt, k :: exp, p, rest =>
       (k == c.k1 || k == c.k2) && c.P k p && (splitsOf p).all fun xy =>
         !adm xy.1 xy.2 ||
-          (!c.prompt xy.1 && !c.P (otherKind c k) xy.1 && !(c.handler && c.fatal xy.1) &&
+          ((c.P k xy.1 || !c.prompt xy.1) && !c.P (otherKind c k) xy.1 && !(c.handler && c.fatal xy.1) &&
             (!c.P k xy.1 || decide (c.limit k < cnt k + 1) ||
               match rest with
               | [] => false
@@ -732,7 +863,11 @@ theorem safeB_sound (c : Cfg) (adm : Bytes → Bytes → Bool) (exp : List Kind)
     simp only [ha, Bool.not_true, Bool.false_eq_true, false_or, Bool.not_eq_true',
       decide_eq_true_eq] at this
     obtain ⟨⟨⟨a1, a2⟩, a3⟩, a4⟩ := this
-    refine ⟨a1, a2, a3, ?_⟩
+    refine ⟨?_, a2, a3, ?_⟩
+    · intro hf
+      rcases a1 with a1 | a1
+      · rw [hf] at a1; cases a1
+      · exact a1
     intro hpk
     rcases a4 with (a4 | a4) | a4
     · rw [hpk] at a4; cases a4
